@@ -181,6 +181,7 @@ structure AsyncCache (K V F : Type) where
   policy : Policy
   ttl : Option Nat
   frequency_weight : Option F
+  stats : StatsCell := ⟨0, 0⟩
 
 /-- `Duration::as_secs()` of a duration in ms -/
 def asSecs (ms : Nat) : Nat := ms / 1000
